@@ -68,10 +68,13 @@ class TGen:
         kids = []
         if depth < maxdepth:
             n = r.choice([0, 0, 1, 1, 2, 3, 4]) if depth else r.choice([1, 2, 3, 4, 5])
-            spaced = r.random() < 0.4
+            gap = r.choice(['none'] * 5 + ['ws'] * 3 + ['mixed'] * 2)
             for i in range(n):
-                if spaced:
+                if gap == 'ws':
                     kids.append(('t', self.pick(['\n', ' ', '\n  '])))
+                elif gap == 'mixed' and r.random() < 0.7:
+                    # any kind of non-element node between two element siblings
+                    kids.append(self.pick([('c', 'note'), ('c', ''), ('t', 'txt'), ('t', ' '), ('cdata', 'cd'), ('pi', 'php x')]))
                 if r.random() < 0.72:
                     kids.append(self.generic(depth + 1, maxdepth))
                     if r.random() < 0.12:
@@ -92,7 +95,8 @@ class TGen:
             for _ in range(r.randint(2, 5)):
                 ra = {'type': self.pick(['radio', 'radio', 'RADIO', 'checkbox']), 'name': self.pick(['g', 'G', 'h', 'g', ''])}
                 if r.random() < 0.25:
-                    ra['checked'] = ''
+                    # case-preserving trees (bs4 API, XML parser) keep the spelling
+                    ra[self.pick(['checked'] * 4 + ['CHECKED', 'Checked'])] = ''
                 if r.random() < 0.1:
                     del ra['name']
                 radios.append(('e', 'input', ra, []))
@@ -204,10 +208,25 @@ class TGen:
     # ---- language / direction
     def langdir(self, depth=0):
         r = self.r
-        name = self.pick(['div', 'p', 'span', 'bdi', 'textarea', 'input', 'script', 'style', 'math', 'iframe'])
+        name = self.pick(['div', 'p', 'span', 'bdi', 'textarea', 'input', 'script', 'style', 'math', 'iframe', 'svg'])
         a = {}
+        LANGS = ['en', 'en-US', 'de', 'de-DE', 'de-Latn-DE-1996', '', 'fr', 'de-x-mundart', 'EN-us', 'en-a-bbb', 'zh-Hant-CN']
+        if name == 'svg' and depth < 4:
+            # foreign content: namespace-aware parsers put these in the SVG namespace (xml:lang, not lang, counts there),
+            # and the content of foreignObject back in the HTML namespace
+            a['xmlns'] = SVG
+            for key in ('lang', 'xml:lang'):
+                if r.random() < 0.25:
+                    a[key] = self.pick(LANGS)
+            g = {}
+            for key in ('lang', 'xml:lang'):
+                if r.random() < 0.3:
+                    g[key] = self.pick(LANGS)
+            fo = ('e', 'foreignObject', {}, [('e', 'div', {'xmlns': XHTML}, [self.langdir(depth + 2)])])
+            kids = [('e', 'g', g, [('e', 'circle', {}, []), ('e', 'text', {}, [('t', 'abc')])] + ([fo] if r.random() < 0.6 else []))]
+            return ('e', 'svg', a, kids)
         if r.random() < 0.35:
-            a['lang'] = self.pick(['en', 'en-US', 'de', 'de-DE', 'de-Latn-DE-1996', '', 'fr', 'de-x-mundart', 'EN-us', 'en-a-bbb', 'zh-Hant-CN'])
+            a['lang'] = self.pick(LANGS)
         if r.random() < 0.4:
             a['dir'] = self.pick(['ltr', 'rtl', 'auto', 'AUTO', 'bogus', ''])
         if name == 'input':
@@ -227,6 +246,33 @@ class TGen:
                     kids.append(('t', self.pick(['', ' ', '123', 'abc', 'אבג', 'مرحبا', '!? ', '123 abc', '٣ אבג'])) if r.random() < 0.85
                                 else ('c', 'אבג'))
         return ('e', name, a, kids)
+
+    def radios_doc(self):
+        """Radio groups whose attribute NAMES vary in case (kept by the bs4 API and by XML parsers)."""
+        r = self.r
+
+        def radio():
+            a = {self.pick(['type'] * 5 + ['TYPE']): self.pick(['radio', 'radio', 'radio', 'RADIO', 'checkbox'])}
+            if r.random() < 0.92:
+                a[self.pick(['name'] * 5 + ['NAME'])] = self.pick(['g', 'g', 'g', 'h', ''])
+            k = r.random()
+            if k < 0.22:
+                a['checked'] = ''
+            elif k < 0.5:
+                a[self.pick(['CHECKED', 'Checked'])] = self.pick(['', 'x'])
+            return ('e', 'input', a, [])
+
+        def group():
+            kids = [radio() for _ in range(r.randint(2, 4))]
+            if r.random() < 0.3:
+                kids.insert(r.randrange(len(kids) + 1), ('e', 'div', {}, [radio()]))
+            return kids
+        body = []
+        for _ in range(r.choice([1, 1, 2])):
+            body.append(('e', self.pick(['form', 'form', 'div']), {}, group()))
+        if r.random() < 0.3:
+            body += group()
+        return ('e', 'html', {}, [('e', 'head', {}, []), ('e', 'body', {}, body)])
 
     def langdir_doc(self):
         r = self.r
